@@ -18,6 +18,6 @@ for id in "$@"; do
   start=$(date +%s)
   VERIF_REPO=$wt VERIF_SEED=${VERIF_SEED:-1} ./run $id $tier > "$run/$id.log" 2>&1
   rc=$?
-  echo "seeded=$sid check=$id rc=$rc secs=$(( $(date +%s)-start )) $(grep '^VIOLATION' "$run/$id.log" | head -2 | tr '\n' ' ')"
+  echo "seeded=$sid check=$id rc=$rc secs=$(( $(date +%s)-start )) $(grep -a '^VIOLATION' "$run/$id.log" | head -2 | tr '\n' ' ')"
 done
 git -C /repo worktree remove --force "$wt"; rm -rf "$wt"
